@@ -3,7 +3,7 @@
    per-entry idle cleanup routine, DeleteCollectionShards (deletion).
    Definitions only.
 
-   Parameter [fixed : bool] of [step]:
+   Argument [fixed : bool] of [step]:
      true  = current code: the idle routine releases loadedShard.mu BEFORE it takes
              shardLock and removes the map entry only if it is still its own;
      false = pinned code (before commit 29ff0f3): the idle routine keeps mu (deferred
